@@ -64,8 +64,8 @@ RULE = ("symmetric models: cubic / tetragonal / hexagonal P lattices, random gen
 # ------------------------------------------------------------------------------------------------
 # groups and exact k-point action
 
-def group_of(rng, famname, max_order):
-    fam = Family(rng, famname)
+def group_of(rng, famname, max_order, oblique=False):
+    fam = Family(rng, famname, oblique=oblique)
     names, trs, gens, cl = c09.random_generators(rng, fam, max_order)
     # remove repeated generators (not the subject here)
     seen, n2, t2, g2 = set(), [], [], []
@@ -119,25 +119,73 @@ def grid_accepted(pg, div, fft):
     return pg.symmetric_grid(div) and pg.symmetric_grid(fft) and pg.symmetric_grid(tot)
 
 
-def pick_grid(rng, pg, famname, max_pts, allow_aniso=True, min_div=1):
-    """a (NKdiv, NKFFT) pair accepted by the code"""
-    opts = [1, 2, 3, 4]
-    for _ in range(400):
-        if famname == "cubic" or not allow_aniso:
-            a, b = rng.choice([1, 2, 3]), rng.choice([1, 2, 3])
-            div, fft = (a, a, a), (b, b, b)
-        else:
-            div = (rng.choice(opts), rng.choice(opts), rng.choice(opts))
-            fft = (rng.choice([1, 2, 3]), rng.choice([1, 2, 3]), rng.choice([1, 2, 3]))
-            if rng.random() < 0.7:
-                div = (div[0], div[0], div[2])
-                fft = (fft[0], fft[0], fft[2])
-        n = int(np.prod(div)) * int(np.prod(fft))
-        if n > max_pts or n < 4 or int(np.prod(div)) < min_div:
+def grid_ok_exact(Ns, nk):
+    """own exact version of symmetric_grid: D^-1 N D integral for every operation"""
+    return all((N[i][j] * nk[j]) % nk[i] == 0 for N in Ns for i in range(3) for j in range(3))
+
+
+def coupled_aniso(Ns, nk):
+    """some operation couples two reduced axes that carry different numbers of divisions"""
+    return any(N[i][j] != 0 and nk[i] != nk[j] for N in Ns for i in range(3) for j in range(3))
+
+
+def pick_grid(rng, pg, Ns, max_pts, min_div=1, sheared_fft_prob=0.0):
+    """a (NKdiv, NKFFT) pair accepted by the code; anisotropic NKdiv on coupled axes preferred when the group and the
+    cell allow it.  NKFFT is kept isotropic on coupled axes (otherwise: known finding) except with sheared_fft_prob."""
+    rngs = range(1, 7)
+    divs = [d for d in itertools.product(rngs, repeat=3)
+            if min_div <= d[0] * d[1] * d[2] <= max_pts and d[0] * d[1] * d[2] >= 2 and grid_ok_exact(Ns, d)]
+    coupled = [d for d in divs if coupled_aniso(Ns, d)]
+    for _ in range(200):
+        pool = coupled if (coupled and rng.random() < 0.6) else divs
+        if not pool:
+            break
+        div = rng.choice(pool)
+        ffts = [f for f in itertools.product([1, 2, 3], repeat=3)
+                if div[0] * div[1] * div[2] * f[0] * f[1] * f[2] <= max_pts and grid_ok_exact(Ns, f)
+                and grid_ok_exact(Ns, tuple(a * b for a, b in zip(div, f)))]
+        plain = [f for f in ffts if not sheared_aniso(Ns, f)]
+        cand = ffts if (rng.random() < sheared_fft_prob and ffts) else plain
+        if not cand:
             continue
-        if grid_accepted(pg, div, fft):
-            return div, fft
+        fft = rng.choice(cand)
+        if not grid_accepted(pg, div, fft):
+            raise InfraError(f"harness: the exact grid test accepts NKdiv={div} NKFFT={fft} but symmetric_grid does not")
+        return div, fft
     return (2, 2, 2), (1, 1, 1)
+
+
+def check_cover(ctx, K_list, Ns, div, case, kf=None):
+    """C06-style statement on this grid: the retained K-points are pairwise inequivalent, their factors are
+    |orbit| / N and their orbits cover the division grid - orbits computed by brute force with the exact index map
+    n'_j = sum_i n_i N_ij div_j / div_i."""
+    ntot = div[0] * div[1] * div[2]
+
+    def images(n):
+        out = set()
+        for N in Ns:
+            q = [sum(Fr(n[i] * N[i][j] * div[j], div[i]) for i in range(3)) for j in range(3)]
+            if any(x.denominator != 1 for x in q):
+                raise InfraError("harness: division grid not invariant")
+            out.add(tuple(int(q[j]) % div[j] for j in range(3)))
+        return out
+    covered = {}
+    for K in K_list:
+        n = tuple(int(round(float(K.K[i]) * div[i])) % div[i] for i in range(3))
+        orb = images(n)
+        if abs(K.factor - len(orb) / ntot) > 1e-12:
+            ctx.fail(f"get_K_list: K-point {n} of the {div} grid has factor {K.factor:.6f}, its orbit has {len(orb)} of "
+                     f"{ntot} points (expected factor {len(orb) / ntot:.6f})", dict(case, K_index=n), kf=kf)
+            return False
+        for q in orb:
+            if q in covered:
+                ctx.fail(f"get_K_list: the retained K-points {covered[q]} and {n} are symmetry-equivalent", case, kf=kf)
+                return False
+            covered[q] = n
+    if len(covered) != ntot:
+        ctx.fail(f"get_K_list: the orbits of the retained K-points cover {len(covered)} of {ntot} grid points", case, kf=kf)
+        return False
+    return True
 
 
 # ------------------------------------------------------------------------------------------------
@@ -148,7 +196,12 @@ SEEDS = {
     "tetra": [(0, 0, 0), (Fr(1, 2), 0, 0), (Fr(1, 2), Fr(1, 2), 0), (0, 0, Fr(1, 2)), (Fr(1, 2), 0, Fr(1, 4)), (Fr(1, 4), Fr(1, 4), 0)],
     "ortho": [(0, 0, 0), (Fr(1, 2), 0, 0), (0, Fr(1, 2), Fr(1, 2)), (Fr(1, 4), 0, 0)],
     "hex": [(0, 0, 0), (Fr(1, 3), Fr(2, 3), 0), (Fr(1, 2), 0, 0), (0, 0, Fr(1, 2)), (Fr(1, 3), Fr(2, 3), Fr(1, 4))],
+    "mono": [(0, 0, 0), (Fr(1, 2), 0, 0), (0, Fr(1, 2), Fr(1, 2)), (Fr(1, 4), Fr(1, 3), 0), (Fr(1, 5), Fr(2, 5), Fr(1, 4))],
+    "rhombo": [(0, 0, 0), (Fr(1, 2), Fr(1, 2), Fr(1, 2)), (Fr(1, 4), Fr(1, 4), Fr(1, 4)), (Fr(1, 2), 0, 0)],
 }
+# (family, oblique description of the cell) visited in turn by the oracles
+FAMILY_CYCLE = [("tetra", False), ("ortho", True), ("hex", False), ("mono", True), ("cubic", False), ("rhombo", True),
+                ("tetra", True), ("ortho", False), ("hex", True), ("mono", False)]
 
 
 def build_symmetric_system(rs, fam, names, trs, seeds, nbonds=7, maxR=1, scale_AA=0.3):
@@ -344,8 +397,8 @@ def run_pair(system, div, fft, make, data_k_class=None, irr_only=False):
         grid = wb.Grid(system, NKdiv=div, NKFFT=fft)
         r1 = wb.run(system, grid, make(), use_irred_kpt=True, symmetrize=True, **kw)
         r0 = None if irr_only else wb.run(system, grid, make(), use_irred_kpt=False, symmetrize=False, **kw)
-        nirr = len(grid.get_K_list(use_symmetry=True))
-    return r1, r0, nirr
+        K_list = grid.get_K_list(use_symmetry=True)
+    return r1, r0, K_list
 
 
 MIN_GAP = 0.05
@@ -387,6 +440,12 @@ def gap_analysis(r0, degen_thresh=1e-4):
     gmin = float(nondeg.min()) if nondeg.size else np.inf
     near = int(((gaps > 1e-9) & (gaps < 3 * degen_thresh)).sum())
     return degenerate, gmin, near
+
+
+def klist_of(system, div, fft):
+    import wannierberri as wb
+    with quiet():
+        return wb.Grid(system, NKdiv=div, NKFFT=fft).get_K_list(use_symmetry=True)
 
 
 def compare_results(ctx, r1, r0, scales, case, kf=None, tolrel=1e-9, kf_by_quantity=None):
@@ -447,13 +506,12 @@ def companion_scales(system0, div, fft, make):
 
 def oracle_physical(ctx, scale):
     rng = ctx.rng
-    nsys = ctx.n(7, 36) * scale
-    fams = ["tetra", "hex", "cubic"]
+    nsys = ctx.n(6, 36) * scale
     for it in range(nsys):
-        famname = fams[it % 3]
+        famname, oblique = FAMILY_CYCLE[it % len(FAMILY_CYCLE)]
         max_order = ctx.n(16, 48)
         want = ["magnetic", "gray(TR)", "noTR"][(it // 3 + it) % 3]
-        fam, names, trs, gens, cl = group_of(rng, famname, max_order)
+        fam, names, trs, gens, cl = group_of(rng, famname, max_order, oblique)
         if cl is None or len(cl) < 2:
             names, trs = ["C2z"], [False]
         names = [n for n in names if n != "E"]
@@ -470,14 +528,15 @@ def oracle_physical(ctx, scale):
         rs = np.random.RandomState(rng.getrandbits(31))
         # site orbits: 2-6 Wannier functions (interband quantities need several bands)
         for attempt in range(20):
-            seeds = [rng.choice(SEEDS[famname])]
+            seeds = [fam.conv_to_cell(rng.choice(SEEDS[famname]))]
             if rng.random() < 0.5:
-                seeds.append(rng.choice(SEEDS[famname]))
+                seeds.append(fam.conv_to_cell(rng.choice(SEEDS[famname])))
             nw = count_sites(fam, names, trs, seeds)
             if 2 <= nw <= ctx.n(5, 6):
                 break
         else:
-            seeds = [(0, 0, 0), (Fr(1, 2), Fr(1, 2), Fr(1, 2))] if famname != "hex" else [(Fr(1, 3), Fr(2, 3), 0)]
+            seeds = [fam.conv_to_cell(x) for x in ([(0, 0, 0), (Fr(1, 2), Fr(1, 2), Fr(1, 2))] if famname != "hex"
+                                                   else [(Fr(1, 3), Fr(2, 3), 0)])]
         case = dict(family=famname, lattice=fam.name, real_lattice=fam.A, generators=names, TR=[bool(t) for t in trs],
                     site_seeds=[[str(x) for x in s] for s in seeds])
         # draw hoppings until the bands on the grid are either exactly degenerate (symmetry) or at least MIN_GAP apart:
@@ -488,10 +547,8 @@ def oracle_physical(ctx, scale):
             if attempt == 0:
                 validate_symmetric(ctx, sys_sym, G, case)
                 Ns = [kmat_exact(fam, R, tr) for R, tr in G]
-                for _ in range(20):   # the known-finding grid class is witnessed elsewhere
-                    div, fft = pick_grid(rng, sys_sym.pointgroup, famname, ctx.n(200, 400), min_div=4)
-                    if not sheared_aniso(Ns, fft):
-                        break
+                # (the known-finding grid class - sheared anisotropic NKFFT - is witnessed elsewhere)
+                div, fft = pick_grid(rng, sys_sym.pointgroup, Ns, ctx.n(160, 400), min_div=4)
             degenerate, gmin, near, Egrid = grid_gaps(sys_sym, div, fft)
             if near == 0 and gmin >= MIN_GAP:
                 accepted = True
@@ -521,11 +578,15 @@ def oracle_physical(ctx, scale):
         ctx.count(f"oracle.physical.kind={kind}")
         ctx.count(f"oracle.physical.order={len(G)}")
         ctx.count("oracle.physical.grid=" + ("anisotropic" if len(set(fft)) > 1 or len(set(div)) > 1 else "isotropic"))
+        ctx.count("oracle.physical.cell=" + ("oblique" if oblique else "conventional"))
+        ctx.count("oracle.physical.NKdiv_differs_on_coupled_axes=" + ("yes" if coupled_aniso(Ns, div) else "no"))
         with ctx.attempt("run() on a symmetric model", case, kf=kf):
             scales = companion_scales(sys0, div, fft, make_wide)
-            r1, r0, nirr = run_pair(sys_sym, div, fft, make)
+            check_cover(ctx, klist_of(sys_sym, div, fft), Ns, div, case, kf=kf)
+            r1, r0, K_list = run_pair(sys_sym, div, fft, make)
+            nirr = len(K_list)
             ntot = int(np.prod(div))
-            ctx.case(signature=("phys", famname, tuple(names), tuple(trs), div, fft, tuple(names_c)),
+            ctx.case(signature=("phys", famname, fam.name, tuple(names), tuple(trs), div, fft, tuple(names_c)),
                      nontrivial=len(G) >= 2 and nirr < ntot)
             ctx.count("oracle.physical.reduction=" + ("yes" if nirr < ntot else "none"))
             tolrel = 1e-9
@@ -622,13 +683,13 @@ def equivariant_table(rng, G, Ns, ntot, shape_lead, rank, tT, tI, complex_vals):
     return table
 
 
-def synthetic_setup(ctx, rng, famname, max_order, max_pts, allow_aniso=True):
-    fam, names, trs, gens, cl = group_of(rng, famname, max_order)
+def synthetic_setup(ctx, rng, famname, max_order, max_pts, oblique=False, sheared_fft_prob=0.1):
+    fam, names, trs, gens, cl = group_of(rng, famname, max_order, oblique)
     rs = np.random.RandomState(rng.getrandbits(31))
-    seeds = [(0, 0, 0)] if famname != "hex" else [(Fr(1, 3), Fr(2, 3), 0)]
+    seeds = [fam.conv_to_cell((0, 0, 0) if famname != "hex" else (Fr(1, 3), Fr(2, 3), 0))]
     sys_sym, sys0, G, sites = build_symmetric_system(rs, fam, names, trs, seeds, nbonds=2)
     Ns = [kmat_exact(fam, R, tr) for R, tr in G]
-    div, fft = pick_grid(rng, sys_sym.pointgroup, famname, max_pts, allow_aniso)
+    div, fft = pick_grid(rng, sys_sym.pointgroup, Ns, max_pts, sheared_fft_prob=sheared_fft_prob)
     return fam, names, trs, sys_sym, G, Ns, div, fft
 
 
@@ -636,10 +697,9 @@ def oracle_synthetic(ctx, scale):
     """run() with synthetic calculators whose per-k value is equivariant by construction: the irreducible +
     symmetrised result must equal the full unsymmetrised one and the directly computed grid average / table"""
     rng = ctx.rng
-    fams = ["tetra", "hex", "cubic", "ortho"]
     for it in range(ctx.n(12, 60) * scale):
-        famname = fams[it % 4]
-        fam, names, trs, sys_sym, G, Ns, div, fft = synthetic_setup(ctx, rng, famname, 48, ctx.n(96, 216))
+        famname, oblique = FAMILY_CYCLE[(it + 1) % len(FAMILY_CYCLE)]
+        fam, names, trs, sys_sym, G, Ns, div, fft = synthetic_setup(ctx, rng, famname, 48, ctx.n(96, 216), oblique)
         ntot = tuple(a * b for a, b in zip(div, fft))
         rank = rng.choice([0, 1, 2, 2, 3])
         tT, tI = rand_transform_pair(rng, rank, valid=True)
@@ -659,12 +719,17 @@ def oracle_synthetic(ctx, scale):
             return {"int": FakeCalc(lambda k: FE[grid_key(k, ntot)], rank, cT, cI, nE),
                     "tabulate": FakeTab(lambda k: TE[grid_key(k, ntot)], lambda k: TX[grid_key(k, ntot)], rank, cT, cI)}
         ctx.count(f"oracle.synthetic.family={famname}")
+        ctx.count("oracle.synthetic.cell=" + ("oblique" if oblique else "conventional"))
+        ctx.count("oracle.synthetic.NKdiv_differs_on_coupled_axes=" + ("yes" if coupled_aniso(Ns, div) else "no"))
         ctx.count(f"oracle.synthetic.rank={rank}")
         ctx.count("oracle.synthetic.grid=" + ("sheared-anisotropic(known finding)" if kf else
                                               ("anisotropic" if len(set(ntot)) > 1 else "isotropic")))
         with ctx.attempt("run() with synthetic equivariant calculators", case, kf=kf):
-            r1, r0, nirr = run_pair(sys_sym, div, fft, make, data_k_class=FakeDataK)
-            ctx.case(signature=("syn", famname, tuple(names), tuple(trs), div, fft, rank, str(tT), str(tI)),
+            # the cover statement concerns the map K -> K.M on the division grid and holds for every accepted grid
+            check_cover(ctx, klist_of(sys_sym, div, fft), Ns, div, case)
+            r1, r0, K_list = run_pair(sys_sym, div, fft, make, data_k_class=FakeDataK)
+            nirr = len(K_list)
+            ctx.case(signature=("syn", famname, fam.name, tuple(names), tuple(trs), div, fft, rank, str(tT), str(tI)),
                      nontrivial=len(G) >= 2 and nirr < int(np.prod(div)))
             # (the random tensors the tables are projected from are O(1): a table that symmetry forces to vanish is
             # rounding noise and is compared on that scale)
@@ -715,7 +780,7 @@ def oracle_known_finding(ctx):
     def make():
         return {"int": FakeCalc(lambda k: FE[grid_key(k, ntot)], 0, cI, cI, 2)}
     with ctx.attempt("run() on an accepted anisotropic FFT grid with a sheared operation", case, kf=KF_SHEAR):
-        r1, r0, nirr = run_pair(sys_sym, div, fft, make, data_k_class=FakeDataK)
+        r1, r0, K_list = run_pair(sys_sym, div, fft, make, data_k_class=FakeDataK)
         ctx.case(signature=("kf-shear",), nontrivial=True)
         compare_results(ctx, r1, r0, {"int": max(1.0, max(float(np.abs(v).max()) for v in FE.values()))}, case, kf=KF_SHEAR,
                         tolrel=1e-11)
@@ -813,11 +878,9 @@ def corr(ctx):
             ctx.count(f"corr.tabtr.rank={rank}")
     # --- run(): weighted symmetrised sum with synthetic calculators returning ARBITRARY tables (not equivariant)
     for it in range(ctx.n(4, 24)):
-        famname = ["tetra", "cubic", "ortho", "hex"][it % 4]
-        fam, names, trs, sys_sym, G, Ns, div, fft = synthetic_setup(ctx, rng, famname, 16, 48, allow_aniso=True)
+        famname, oblique = FAMILY_CYCLE[(it + 1) % len(FAMILY_CYCLE)]
+        fam, names, trs, sys_sym, G, Ns, div, fft = synthetic_setup(ctx, rng, famname, 16, 48, oblique, sheared_fft_prob=0.0)
         fft = (1, 1, 1)
-        if not grid_accepted(sys_sym.pointgroup, div, fft):
-            div = (2, 2, 2)
         rank = rng.choice([0, 1, 2])
         tT, tI = rand_transform_pair(rng, rank, valid=True)
         cT, cI = code_transform(tT), code_transform(tI)
@@ -831,10 +894,8 @@ def corr(ctx):
             def make():
                 return {"int": FakeCalc(lambda k: fam.tensor_to_cart(table[grid_key(k, ntot)], rank).reshape((1,) + (3,) * rank),
                                         rank, cT, cI, 1)}
-            r1, r0, nirr = run_pair(sys_sym, div, fft, make, data_k_class=FakeDataK)
-            with quiet():
-                grid = wb.Grid(sys_sym, NKdiv=div, NKFFT=fft)
-                K_list = grid.get_K_list(use_symmetry=True)
+            r1, r0, K_list = run_pair(sys_sym, div, fft, make, data_k_class=FakeDataK)
+            nirr = len(K_list)
             grp_elems = c09.code_elements(fam, sys_sym.pointgroup)
             w = wire_elems(grp_elems)
             ws = [Fr(float(K.factor)).limit_denominator(10000) for K in K_list]
@@ -847,16 +908,29 @@ def corr(ctx):
                          f"{';'.join(wire_tensor(table[p]).split(' ')[0] for p in allp)} "
                          f"{';'.join(wire_tensor(table[p]).split(' ')[1] for p in allp)}")
             checks.append(("fullsum", case, ("tensor", fam, rank, r0.results["int"].data.reshape((3,) * rank))))
+            # index map of the division grid: the code's  round(star * div) % div  element by element
+            for _ in range(3):
+                n = [rng.randrange(div[i]) for i in range(3)]
+                kk = np.array([n[i] / div[i] for i in range(3)])
+                pgc = sys_sym.pointgroup
+                imgs = [np.array(np.round(S.transform_reduced_vector(kk, pgc.recip_lattice) * np.array(div)), dtype=int)
+                        % np.array(div) for S in pgc.symmetries]
+                lines.append(f"gridimg {w[0]} {w[1]} {w[2]} {rats(flat(fam.basis_recip))} {ints(div)} {ints(n)}")
+                checks.append(("gridimg", dict(case, n=n), ";".join(",".join(str(int(v)) for v in im) for im in imgs)))
+                ctx.count("corr.gridimg.coupled_anisotropic=" + ("yes" if coupled_aniso(Ns, div) else "no"))
             ctx.count(f"corr.irrsum.rank={rank}")
             ctx.count(f"corr.irrsum.irreducible={nirr}/{len(allp)}")
 
     out = ctx.lean(lines)
     for line, o, (kind, case, exp) in zip(lines, out, checks):
-        ctx.case(signature=line, nontrivial=kind in ("togrid", "tabtr", "irrsum", "fullsum"))
+        ctx.case(signature=line, nontrivial=kind in ("togrid", "tabtr", "irrsum", "fullsum", "gridimg"))
         if o == "bad-op" or o == "singular":
             ctx.mismatch(f"{kind}: the model rejected the line", dict(case, line=line[:500]))
         elif exp is None:
             continue
+        elif isinstance(exp, str) and kind == "gridimg":
+            if o != exp:
+                ctx.mismatch(f"{kind}: model {o[:150]} code {exp[:150]}", dict(case, line=line[:300]))
         elif exp == "ERR":
             if o != "ERR":
                 ctx.mismatch(f"{kind}: code raises ZeroDivisionError (empty grid cell), model gives {o[:100]}", case)
